@@ -317,6 +317,7 @@ impl Property for C03 {
     fn assumptions() -> Vec<String> {
         vec![
             "the mock reader never writes beyond the n bytes it reports and hands out at most one scripted chunk per poll_read".into(),
+            "a read error in the middle of a packet ends run() but not the byte stream: run() called again on the same transport (no set_up) continues where the stream stopped, as the library's receive stream (which lives in the Context, not in run()) is built to do".into(),
             "a single global order of observables is not compared: several packets handled within one poll are legitimately observed together; per channel (each stream, the acknowledgement wire, each operation) order is compared".into(),
         ]
     }
